@@ -66,16 +66,17 @@ theorem rebinding_reads_current (vo : VOps V) (pid0 : Str) (ops : List (Op V))
 
 /-- … and after the whole call (any op) every cache is still what its file holds, provided live objects have
     pairwise different (prefix, key) -/
-theorem caches_coherent (vo : VOps V) (pid0 : Str) (ops : List (Op V))
+theorem caches_coherent_partial (vo : VOps V) (pid0 : Str) (ops : List (Op V))
     (huniq : ((run vo (St.init pid0) ops).values.map (fun v => idOf v.params)).Nodup) :
     ∀ v ∈ (run vo (St.init pid0) ops).values,
       cellVal vo (run vo (St.init pid0) ops).disk v.file v.key = (v.value, v.ts) :=
   (run_inv vo ops _ (inv_init vo pid0) huniq).cached
 
-/-- **per_pid_gauge** (and every other series): after any history, the entry of series `(pre, k)` in identity `p`'s
+/-- **per_pid_gauge** (and every other series; `_partial`: missing is the case of two live value objects on one
+    (prefix, key), where the real code loses updates — `two_objects_lose_updates`; excluded by `huniq`): after any history, the entry of series `(pre, k)` in identity `p`'s
     file is the fold of the updates issued UNDER `p` alone — increments add, a set replaces — starting from zero;
     updates issued under other identities never reach it. -/
-theorem per_pid_gauge (vo : VOps V) (pid0 : Str) (ops : List (Op V)) (pre : Str) (k : Key) (p : Str)
+theorem per_pid_gauge_partial (vo : VOps V) (pid0 : Str) (ops : List (Op V)) (pre : Str) (k : Key) (p : Str)
     (hp : '_' ∉ p) (hids : IdsOK pid0 ops)
     (huniq : ((run vo (St.init pid0) ops).values.map (fun v => idOf v.params)).Nodup) :
     cellVal vo (run vo (St.init pid0) ops).disk (fileName pre p) k = ownCell vo p (updLog vo pre k pid0 [] ops) := by
@@ -98,7 +99,7 @@ theorem aggSum_zeros (vo : VOps V) (hzero : ∀ a, vo.add vo.zero a = a) (l : Li
 
 /-- conservation without assuming `zero` neutral: the sum over all identities' files is the left fold of the
     increments starting from the sum of as many zeros as there are identities -/
-theorem conservation_general (vo : VOps V) (hcomm : ∀ a b, vo.add a b = vo.add b a)
+theorem conservation_general_partial (vo : VOps V) (hcomm : ∀ a b, vo.add a b = vo.add b a)
     (hassoc : ∀ a b c, vo.add (vo.add a b) c = vo.add a (vo.add b c))
     (pid0 : Str) (ops : List (Op V)) (pre : Str) (k : Key) (pids : List Str) (hnd : pids.Nodup)
     (hpids : ∀ p ∈ pids, '_' ∉ p) (hids : IdsOK pid0 ops)
@@ -112,16 +113,16 @@ theorem conservation_general (vo : VOps V) (hcomm : ∀ a b, vo.add a b = vo.add
       = pids.map (fun p => ((updLog vo pre k pid0 [] ops).foldl (ownStep vo p) (vo.zero, vo.zero)).1) := by
     apply List.map_congr_left
     intro p hp
-    rw [per_pid_gauge vo pid0 ops pre k p (hpids p hp) hids huniq, ownCell_eq]
+    rw [per_pid_gauge_partial vo pid0 ops pre k p (hpids p hp) hids huniq, ownCell_eq]
   rw [hcell]
   exact sum_ownCells vo hcomm hassoc pids hnd _ hinc (fun _ => (vo.zero, vo.zero))
 
-/-- **conservation.**  For any history from a fresh directory — any number of identity changes at any positions,
+/-- **conservation** (`_partial` for the same reason as `per_pid_gauge_partial`: `huniq`).  For any history from a fresh directory — any number of identity changes at any positions,
     returning to earlier identities included — the sum over ALL identities' files of the entry of series `(pre, k)`
     equals the sum of all increments ever issued to it, in a commutative monoid, provided the series is only
     incremented (`hinc`; a `set`, e.g. `Counter.reset()`, deliberately overwrites).  `pids` is any duplicate-free list
     containing every identity used; files of other identities do not exist (their entries read as zero). -/
-theorem conservation (vo : VOps V) (hcomm : ∀ a b, vo.add a b = vo.add b a)
+theorem conservation_partial (vo : VOps V) (hcomm : ∀ a b, vo.add a b = vo.add b a)
     (hassoc : ∀ a b c, vo.add (vo.add a b) c = vo.add a (vo.add b c)) (hzero : ∀ a, vo.add vo.zero a = a)
     (pid0 : Str) (ops : List (Op V)) (pre : Str) (k : Key) (pids : List Str) (hnd : pids.Nodup)
     (hpids : ∀ p ∈ pids, '_' ∉ p) (hids : IdsOK pid0 ops)
@@ -129,7 +130,7 @@ theorem conservation (vo : VOps V) (hcomm : ∀ a b, vo.add a b = vo.add b a)
     (hinc : ∀ u ∈ updLog vo pre k pid0 [] ops, ∃ q a, u = Upd.inc q a ∧ q ∈ pids) :
     aggSum vo (pids.map (fun p => (cellVal vo (run vo (St.init pid0) ops).disk (fileName pre p) k).1))
       = incTotal vo (updLog vo pre k pid0 [] ops) := by
-  rw [conservation_general vo hcomm hassoc pid0 ops pre k pids hnd hpids hids huniq hinc, aggSum_zeros vo hzero]
+  rw [conservation_general_partial vo hcomm hassoc pid0 ops pre k pids hnd hpids hids huniq hinc, aggSum_zeros vo hzero]
   rfl
 
 /-! ### non-vacuity and the counter-example behind `huniq` -/
@@ -179,7 +180,7 @@ theorem demo_uniq : ((run intOps (St.init "1".toList) demoOps).values.map (fun v
 example : aggSum intOps (["1".toList, "2".toList].map (fun p =>
       (cellVal intOps (run intOps (St.init "1".toList) demoOps).disk (fileName "counter".toList p) (mmapKey pCounter)).1))
     = incTotal intOps (updLog intOps "counter".toList (mmapKey pCounter) "1".toList [] demoOps) :=
-  conservation intOps Int.add_comm Int.add_assoc Int.zero_add "1".toList demoOps "counter".toList (mmapKey pCounter)
+  conservation_partial intOps Int.add_comm Int.add_assoc Int.zero_add "1".toList demoOps "counter".toList (mmapKey pCounter)
     ["1".toList, "2".toList] (by decide) (by decide) demo_ids demo_uniq (incsWithin_sound _ _ (by decide))
 
 example : incTotal intOps (updLog intOps "counter".toList (mmapKey pCounter) "1".toList [] demoOps) = 10 := by decide
